@@ -200,11 +200,12 @@ def make_raises(repo: Repo, decode_set: Set[str], action_set: Optional[Set[str]]
                 producer_sets: Optional[Dict[str, Set[str]]] = None):
     """raises_of callback for the provider analyses: library model + decoder set for
     table-driven decode + (optionally) summaries for action() and the producers."""
-    from .excmodel import node_raises
+    from .excmodel import node_raises, folder
+    fold = folder(repo, 'dulprovider', 'DULServiceProvider')
 
     def raises_of(node, client, state):
         term_of = lambda e: client.term(e, state, heap_ext=False)
-        out = list(node_raises(node, term_of))
+        out = list(node_raises(node, term_of, fold))
         for call in calls_in(node):
             callee = term_of(call.func)
             if callee.endswith('.decode') and call.args and ('PDU_TYPES' in callee or callee.split('.')[0] in ('pdu_type', 'pdu_class')):
